@@ -15,11 +15,12 @@ Trace == ndJsonDeserialize(IOEnv.ZV_TRACE)
 VARIABLES
   l,       \* next line of Trace
   qs,      \* [Tables -> [mem, disk]] view captured at the scan's start
+  ss,      \* the same for a scan that is held open while other things happen
   scn,     \* current scenario id
   fails,   \* set of [scn, at] : scenarios the specification cannot follow
   viol     \* set of [scn, inv, at, bad] : property predicates found false
 
-tvars == <<vars, l, qs, scn, fails, viol>>
+tvars == <<vars, l, qs, ss, scn, fails, viol>>
 
 CONSTANT CheckInvs   \* names of the StoreProps predicates to evaluate after every line
 
@@ -41,14 +42,15 @@ RowKey(r) == <<r[1], r[2], r[3], r[4]>>
 ObsBag(rows) == LET R == ToSet(rows)
                 IN [o \in {RowKey(r) : r \in R} |-> (CHOOSE r \in R : RowKey(r) = o)[5]]
 
-TraceInit == Init /\ l = 1 /\ qs = NoSnap /\ scn = "" /\ fails = {} /\ viol = {}
+NoScan == [t \in Tables |-> [mem |-> EmptyBag, disk |-> EmptyBag, clock |-> 0, want |-> FALSE]]
+TraceInit == Init /\ l = 1 /\ qs = NoSnap /\ ss = NoScan /\ scn = "" /\ fails = {} /\ viol = {}
 
-Same == UNCHANGED <<qs, scn, fails>>
+Same == UNCHANGED <<qs, ss, scn, fails>>
 
 TReset ==
   /\ IsEv("Reset")
   /\ scn' = Line.scn
-  /\ qs' = NoSnap
+  /\ qs' = NoSnap /\ ss' = NoScan
   /\ UNCHANGED fails
   \* back to Store!Init
   /\ wal' = <<>> /\ clock' = 0 /\ up' = FALSE /\ opened' = {}
@@ -85,19 +87,31 @@ TClose  == IsEv("Close") /\ Close /\ Same
 TQueryStart ==
   /\ IsEv("QueryStart")
   /\ up /\ Line.t \in opened
-  /\ qs' = [qs EXCEPT ![Line.t] = [mem |-> View(Line.t), disk |-> DiskView(Line.t), clock |-> clock]]
+  /\ LET snap == [mem |-> View(Line.t), disk |-> DiskView(Line.t), clock |-> clock]
+     IN IF ss[Line.t].want
+        THEN /\ ss' = [ss EXCEPT ![Line.t] = [mem |-> snap.mem, disk |-> snap.disk, clock |-> snap.clock, want |-> FALSE]]
+             /\ UNCHANGED qs
+        ELSE /\ qs' = [qs EXCEPT ![Line.t] = snap]
+             /\ UNCHANGED ss
   /\ UNCHANGED <<vars, scn, fails>>
 
-\* the rows the query returned are exactly the cells of that snapshot; a query
-\* naming fields (Line.fields # <<>>) returns only those, and is planned with
-\* the default time window (now - retention, now], both ends rounded up to the
-\* table's resolution (query.go:62-63)
+\* the driver announces a scan it is going to hold open: the next scan start
+\* of that table is the held one
+TScanBegin ==
+  /\ IsEv("ScanBegin")
+  /\ ss' = [ss EXCEPT ![Line.t].want = TRUE]
+  /\ UNCHANGED <<vars, qs, scn, fails>>
+
+\* a query naming fields (Line.fields # <<>>) returns only those, and is
+\* planned with the default time window (now - retention, now], both ends
+\* rounded up to the table's resolution (query.go:62-63)
 InWindow(t, P, now) == LET until == PeriodOf(t, now)
                            asOf  == PeriodOf(t, until - Ret[t])
                        IN P > asOf /\ P <= until
 Shown(B, t, fs, win, now) ==
   [e \in {x \in DOMAIN B : /\ (fs = <<>> \/ x[3] \in ToSet(fs))
                             /\ (~win \/ InWindow(t, x[2], now))} |-> B[e]]
+
 \* A disk-only scan returns the file's cells exactly.  A memstore-inclusive
 \* scan merges file and memstore columns and may drop a column that lies
 \* wholly before now - retention (seq.go:348-352), so cells of expired periods
@@ -106,21 +120,21 @@ Shown(B, t, fs, win, now) ==
 \* returned with its exact contents.
 TQueryResult ==
   /\ IsEv("QueryResult")
-  /\ LET q   == qs[Line.t]
+  /\ LET q   == IF Line.held > 0 THEN ss[Line.t] ELSE qs[Line.t]
          M   == Observable(Shown(IF Line.mem THEN q.mem ELSE q.disk, Line.t, Line.fields, Line.win, q.clock))
          obs == ObsBag(Line.rows)
      IN IF Line.mem
-        THEN /\ \A o \in DOMAIN obs : /\ o \in DOMAIN M /\ obs[o] <= M[o]
-                                        /\ Live(Line.t, o[2], q.clock) => obs[o] = M[o]
-             /\ \A e \in DOMAIN M : Live(Line.t, e[2], q.clock) => e \in DOMAIN obs
+        THEN (\A o \in DOMAIN obs :
+                 (o \in DOMAIN M) /\ (obs[o] <= M[o]) /\ (Live(Line.t, o[2], q.clock) => (obs[o] = M[o])))
+             /\ (\A e \in DOMAIN M : Live(Line.t, e[2], q.clock) => (e \in DOMAIN obs))
         ELSE obs = M
-  /\ UNCHANGED <<vars, qs, scn, fails>>
+  /\ UNCHANGED <<vars, qs, ss, scn, fails>>
 
 Normal ==
   \/ TReset \/ TStart \/ TOpen \/ TInsert \/ TDecide \/ TApply
   \/ TFlushBegin \/ TFlushTemp \/ TFlushRename \/ TFlushSwap \/ TOffWrite \/ TRemoveOld
   \/ TAlterFields \/ TRSFields \/ TAlterWhere \/ TCrash \/ TClose
-  \/ TQueryStart \/ TQueryResult
+  \/ TQueryStart \/ TQueryResult \/ TScanBegin
 
 \* the specification cannot take line l: remember where, skip to the next scenario
 NextReset == LET S == {j \in (l + 1)..Len(Trace) : Trace[j].a = "Reset"}
@@ -129,7 +143,7 @@ NextReset == LET S == {j \in (l + 1)..Len(Trace) : Trace[j].a = "Reset"}
 \* the specification has for it
 StuckInfo ==
   IF Line.a = "QueryResult"
-  THEN LET q == qs[Line.t]
+  THEN LET q == IF Line.held > 0 THEN ss[Line.t] ELSE qs[Line.t]
            M == Observable(Shown(IF Line.mem THEN q.mem ELSE q.disk, Line.t, Line.fields, Line.win, q.clock))
        IN [at |-> l, clock |-> q.clock, model |-> {<<e, M[e]>> : e \in DOMAIN M}]
   ELSE [at |-> l, clock |-> clock, rd |-> rd, pend |-> pend, pc |-> [t \in Tables |-> fl[t].pc],
@@ -140,7 +154,7 @@ TSkip ==
   /\ PrintT(<<"ZVSTUCK", ToJson(StuckInfo)>>)
   /\ fails' = fails \cup {[scn |-> scn, at |-> l]}
   /\ l' = NextReset
-  /\ UNCHANGED <<vars, qs, scn>>
+  /\ UNCHANGED <<vars, qs, ss, scn>>
 
 \* the properties, evaluated in every state the trace passes through; `bad'
 \* names the (table, point id) pairs on which the state differs from the
